@@ -65,14 +65,28 @@ ArrDiff(g, a) ==
   ELSE ""
 
 NoFV(attrs) == {attrs[i] : i \in {j \in 1..Len(attrs) : attrs[j].k # "fill_value"}}
+\* A float result is logged as the nearest fraction with denominator <= 100;
+\* that identifies the exact value only if its denominator is <= 100 and, for
+\* float32 data, its magnitude is small enough for the rounding error to stay
+\* below the spacing of such fractions.  Other cells cannot be decided.
+RepCell(x, dt) == /\ x.d <= 100 /\ AbsI(x.n) <= 1000000
+                  /\ (dt \notin {"d"} \cup IntTypes => AbsI(x.n) <= 2000 * x.d)
+AllRep(a, dt) == \A k \in 1..Len(a.vals) : a.mask[k] \/ RepCell(a.vals[k], dt)
 VarDiff(g, e, mode) ==
   IF g.dims # e.dims THEN "dimensions"
   ELSE IF "free" \in DOMAIN e THEN (IF g.shape # e.shape THEN "shape" ELSE "")
   ELSE IF "alts" \in DOMAIN e
-       THEN (IF g.enc # "num" THEN "encoding (not numeric)"
+       THEN (IF \E a \in e.alts : g.shape = a.shape /\ ~AllRep(a, g.dt) THEN ""
+             ELSE IF g.enc # "num" THEN "encoding (not numeric)"
              ELSE IF \E a \in e.alts : ArrDiff(g, a) = "" THEN ""
              ELSE "no admissible evaluation order matches: " \o ArrDiff(g, CHOOSE a \in e.alts : TRUE))
   ELSE IF g.shape # e.shape THEN "shape"
+  ELSE IF mode = "val" /\ e.enc = "num" /\ ~AllRep(e, g.dt) THEN ""
+  ELSE IF "freecells" \in DOMAIN e
+       THEN (IF g.enc # e.enc THEN "encoding"
+             ELSE IF \E k \in 1..Len(e.mask) : ~e.freecells[k] /\ g.mask[k] # e.mask[k] THEN "mask"
+             ELSE IF \E k \in 1..Len(e.mask) : ~e.freecells[k] /\ ~e.mask[k] /\ g.vals[k] # e.vals[k] THEN "values"
+             ELSE "")
   ELSE IF g.mask # e.mask THEN "mask"
   ELSE IF g.enc # e.enc THEN "encoding"
   ELSE IF ~ValsEq(g, e) THEN "values"
@@ -151,9 +165,13 @@ Dom_apply(f, a) ==
        /\ DimLen(f, a.funcs[i].d) >= 1
        /\ a.funcs[i].kind = "reducer" => a.funcs[i].f \in Reducers
        /\ HasVar(f, a.funcs[i].d) => VarRec(f, a.funcs[i].d).dims = <<a.funcs[i].d>>
-  \* numeric data only
+  \* numeric data only; a 1-D function needs non-empty input and output
   /\ \A i \in 1..Len(f.vars) :
-       (\E d \in FuncDims(a) : VarHasDim(f.vars[i], d)) => f.vars[i].enc = "num"
+       (\E d \in FuncDims(a) : VarHasDim(f.vars[i], d)) =>
+          /\ f.vars[i].enc = "num" /\ NoDup(f.vars[i].dims)
+          /\ ((\E j \in 1..Len(a.funcs) : a.funcs[j].kind = "callable") => ProdSeq(f.vars[i].shape) >= 1)
+  /\ \A i \in 1..Len(a.funcs) :
+       a.funcs[i].kind = "callable" => Fun1dLen(a.funcs[i].f, DimLen(f, a.funcs[i].d)) >= 1
 
 ApplyAxis(arr, ax, fn) ==
   IF fn.kind = "reducer"
@@ -197,6 +215,7 @@ Exp_apply(f, a) ==
 Dom_stack(fs, a) ==
   LET f == fs[1] IN
   /\ HasDim(f, a.dim)
+  /\ \A i \in 1..Len(f.vars) : NoDup(f.vars[i].dims)
   /\ \A j \in 2..Len(fs) :
        /\ SeqSet(DimNames(fs[j])) = SeqSet(DimNames(f))
        /\ \A d \in SeqSet(DimNames(f)) : d # a.dim => DimLen(fs[j], d) = DimLen(f, d)
@@ -298,7 +317,7 @@ Dom_reorder(f, a) == /\ SeqSet(a.old) = SeqSet(a.new) /\ NoDup(a.new) /\ NoDup(a
                      \* that has any of the named dimensions must have all of its dimensions named
                      /\ \A i \in 1..Len(f.vars) :
                           (\E d \in SeqSet(a.new) : VarHasDim(f.vars[i], d)) =>
-                             SeqSet(f.vars[i].dims) \subseteq SeqSet(a.new)
+                             SeqSet(f.vars[i].dims) \subseteq SeqSet(a.new) /\ NoDup(f.vars[i].dims)
 \* the property fixes only the relative order of the named dimensions; the
 \* variable's new dimension tuple nd (a permutation of v.dims) is taken from the
 \* observation and the data must be the corresponding transposition
@@ -374,8 +393,13 @@ ArithVar(f, g, a, v) ==
            c == [k \in 1..Len(v.vals) |->
                    IF v.mask[k] \/ w.mask[k] THEN [ok |-> FALSE, v |-> RInt(0)]
                    ELSE ArithCellT(a.op, v.vals[k], w.vals[k], IF w.dt \in IntTypes THEN v.dt ELSE w.dt)]
+           \* integer x // 0 and x % 0: plain integer arrays give 0, masked-array
+           \* arithmetic masks the cell; both follow "masked-array semantics"
+           dt == IF w.dt \in IntTypes THEN v.dt ELSE w.dt
+           fr == [k \in 1..Len(v.vals) |-> /\ dt \in IntTypes /\ a.op \in {"//", "%"}
+                                           /\ ~(v.mask[k] \/ w.mask[k]) /\ w.vals[k].n = 0]
        IN [v EXCEPT !.vals = [k \in 1..Len(c) |-> c[k].v],
-                    !.mask = [k \in 1..Len(c) |-> ~c[k].ok]]
+                    !.mask = [k \in 1..Len(c) |-> ~c[k].ok]] @@ [freecells |-> fr]
 Exp_arith(fs, a) ==
   [fs[1] EXCEPT !.vars = [i \in 1..Len(fs[1].vars) |-> ArithVar(fs[1], fs[2], a, fs[1].vars[i])]]
 
@@ -402,7 +426,9 @@ ExprVars(e) == CASE e.t = "var" -> {e.k}
 RECURSIVE ExprTotal(_)
 \* no operator that can produce a non-finite value (the property's eval
 \* clause does not speak about non-finite results)
-ExprIsBool(e) == e.t = "bin" /\ e.op \in {"<", "<=", ">", ">=", "==", "!="}
+RECURSIVE ExprIsBool(_)
+ExprIsBool(e) == \/ (e.t = "bin" /\ e.op \in {"<", "<=", ">", ">=", "==", "!="})
+                 \/ (e.t = "where" /\ (ExprIsBool(e.x) \/ ExprIsBool(e.y)))
 ExprTotal(e) == CASE e.t = "var" -> TRUE
                   [] e.t = "int" -> TRUE
                   [] e.t = "bin" -> /\ e.op \in {"+", "-", "*", "<", "<=", ">", ">=", "==", "!="}
@@ -450,7 +476,8 @@ Dec_apply(f, a) ==
         fns == {FuncOf(a, v.dims[ax]).f : ax \in axes}
     IN axes # {} =>
          /\ MaxDen(v) = 1 /\ Cardinality(axes) <= 2
-         /\ ("var" \in fns => Cardinality(axes) = 1 /\ MaxAbs(v) <= 2000)
+         \* float32 variance is not exact enough to identify the rational value
+         /\ ("var" \in fns => Cardinality(axes) = 1 /\ MaxAbs(v) <= 2000 /\ v.dt # "f")
          /\ ("prod" \in fns => Cardinality(axes) = 1 /\ MaxAbs(v) <= 30)
          /\ MaxAbs(v) <= 20000
 Dec_arith(fs, a) ==
